@@ -291,7 +291,7 @@ def run_check(check_name, tier, seed, workers=None, cases=None, quiet=False):
                             "cobyqa.subsolvers", "cobyqa.settings", "cobyqa.utils", "numpy", "scipy"],
         "stub_components": spec.get("stubs", ["objective function", "constraint functions", "callback",
                                               "sys.stdout (StringIO)", "cobyqa.models.eigh wrapped for fault injection"]),
-        "harness_errors": [e[1][:500] for e in errors[:5]],
+        "harness_errors": [e[1][-1500:] for e in errors[:5]],
         "cobyqa_src": os.environ.get("COBYQA_SRC", "/repo"),
     }
     for w in spec.get("reach", []):
